@@ -502,27 +502,69 @@ func ruleC12Sites(cx *Ctx) {
 	if sa == nil {
 		return
 	}
+	// the function as a decision list over the two wrap tests P = (a+b < a), Q = (a+b < b): MaxInt64 exactly when P or Q
 	okMax, okSum := false, false
-	cmps := 0
-	allInstrs(sa, func(in ssa.Instruction) {
-		if b, ok := in.(*ssa.BinOp); ok && b.Op == token.LSS {
-			if s, ok := b.X.(*ssa.BinOp); ok && s.Op == token.ADD {
-				if _, isP := b.Y.(*ssa.Parameter); isP {
-					cmps++
+	detail := ""
+	paths, bad := symRun(sa, []*Term{tVar("param0"), tVar("param1")}, 200)
+	if bad != "" {
+		detail = "(" + bad + ")"
+	} else if len(sa.Params) == 2 {
+		sum := mk("+", tVar("param0"), tVar("param1")).String()
+		okMax, okSum = true, true
+		sawMax, sawSum := false, false
+		for _, p := range paths {
+			// atoms decided on this path: index 0 = P, 1 = Q; value +1 true, -1 false, 0 undecided
+			var dec [2]int
+			okPath := len(p.Rets) == 1
+			for _, c := range p.Conds {
+				if len(c.T.Args) != 2 {
+					okPath = false
+					continue
+				}
+				l, r, op, truth := c.T.Args[0].String(), c.T.Args[1].String(), c.T.Op, c.Truth
+				if r == sum { // X op s  ==  s op' X
+					l, r = r, l
+					op = map[string]string{"<": ">", ">": "<", "<=": ">=", ">=": "<="}[op]
+				}
+				if l != sum || (op != "<" && op != ">=") || (r != "param0" && r != "param1") {
+					okPath = false
+					continue
+				}
+				if op == ">=" {
+					truth = !truth
+				}
+				k := 0
+				if r == "param1" {
+					k = 1
+				}
+				if truth {
+					dec[k] = 1
+				} else {
+					dec[k] = -1
 				}
 			}
-		}
-		if ret, ok := in.(*ssa.Return); ok && len(ret.Results) == 1 {
-			if c, ok := constInt(ret.Results[0]); ok && c == 9223372036854775807 {
-				okMax = true
+			if !okPath {
+				okMax, okSum = false, false
+				detail = "(a path tests something else than a+b < a, a+b < b)"
+				continue
 			}
-			if b, ok := ret.Results[0].(*ssa.BinOp); ok && b.Op == token.ADD {
-				okSum = true
+			isMax := p.Rets[0].isConst() && p.Rets[0].C == 9223372036854775807
+			isSum := p.Rets[0].String() == sum
+			switch {
+			case dec[0] == 1 || dec[1] == 1: // wrapped for sure
+				okMax = okMax && isMax
+				sawMax = true
+			case dec[0] == -1 && dec[1] == -1: // not wrapped for sure
+				okSum = okSum && isSum
+				sawSum = true
+			default: // the path covers wrapped and unwrapped sums alike
+				okMax, okSum = false, false
+				detail = "(a result is chosen before both wrap tests are made)"
 			}
 		}
-	})
-	okMax = okMax && cmps >= 2
-	cx.R.Check(okMax && okSum, "C12.satfn", funcName(sa), "clamp", cx.P.Pos(sa.Pos()), "SaturatedAdd returns a+b, or MaxInt64 on the wrapped-sum edge")
+		okMax, okSum = okMax && sawMax, okSum && sawSum
+	}
+	cx.R.Check(okMax && okSum, "C12.satfn", funcName(sa), "clamp", cx.P.Pos(sa.Pos()), "SaturatedAdd returns a+b, or MaxInt64 on the wrapped-sum edge "+detail)
 }
 
 // ruleC12Apply: the deadline stores are conditional only on the documented no-op tests.
@@ -559,7 +601,14 @@ func allowedDeadlineGuard(c ssa.Value) bool {
 		return false
 	case *ssa.Call:
 		n := invokeName(x)
-		return n == "HasExpired"
+		if n == "HasExpired" {
+			return true
+		}
+		// a named predicate: a pure boolean helper of the module every test of which is a documented test
+		if h := x.Call.StaticCallee(); h != nil && !x.Call.IsInvoke() {
+			return pureDeadlinePredicate(origin(h))
+		}
+		return false
 	case *ssa.BinOp:
 		if _, _, ok := nilCmp(x); ok {
 			return true
@@ -621,6 +670,58 @@ func allowedDeadlineGuard(c ssa.Value) bool {
 			return false
 		}
 		return allowedBoolPhi(x, 0)
+	}
+	return false
+}
+
+// pureDeadlinePredicate: h is a side-effect-free boolean function of the module whose branch conditions and results are
+// all documented tests (or constants).
+var predBusy = map[*ssa.Function]bool{}
+
+func pureDeadlinePredicate(h *ssa.Function) bool {
+	if h == nil || predBusy[h] {
+		return false
+	}
+	predBusy[h] = true
+	defer delete(predBusy, h)
+	if h.Pkg == nil || !strings.HasPrefix(h.Pkg.Pkg.Path(), modPath) || len(h.Blocks) == 0 || len(h.Blocks) > 12 {
+		return false
+	}
+	if rs := h.Signature.Results(); rs.Len() != 1 {
+		return false
+	} else if bt, ok := rs.At(0).Type().Underlying().(*types.Basic); !ok || bt.Kind() != types.Bool {
+		return false
+	}
+	ok := true
+	allInstrs(h, func(in ssa.Instruction) {
+		switch y := in.(type) {
+		case *ssa.Store, *ssa.MapUpdate, *ssa.Send, *ssa.Go, *ssa.Defer, *ssa.Panic:
+			ok = false
+		case *ssa.Call:
+			if !allowedDeadlineGuard(y) && !isDurationAccessor(y) {
+				ok = false
+			}
+		case *ssa.If:
+			if c, _ := stripNot(y.Cond); !allowedDeadlineGuard(c) {
+				ok = false
+			}
+		case *ssa.Return:
+			if _, isConst := y.Results[0].(*ssa.Const); !isConst {
+				if c, _ := stripNot(y.Results[0]); !allowedDeadlineGuard(c) {
+					ok = false
+				}
+			}
+		}
+	})
+	return ok
+}
+
+func isDurationAccessor(c *ssa.Call) bool {
+	if f := c.Call.StaticCallee(); f != nil {
+		switch origin(f).Name() {
+		case "ExpiresAfter", "RefreshableAfter", "Abs":
+			return true
+		}
 	}
 	return false
 }
